@@ -8,6 +8,8 @@ import (
 	"os"
 	"sort"
 	"strings"
+
+	"golang.org/x/tools/go/ssa"
 )
 
 // InputRec is one verif.* input request made by the harness, in order.
@@ -71,6 +73,8 @@ type PathResult struct {
 	SolverErrors int           `json:"solver_errors,omitempty"`
 	Events       int           `json:"events,omitempty"`
 	Leaked       int           `json:"leaked,omitempty"`
+	RaceQueries  int           `json:"race_queries,omitempty"`
+	HBConstraints int          `json:"hb_constraints,omitempty"`
 }
 
 type pathAbort struct {
@@ -106,11 +110,13 @@ type pathCtx struct {
 	schedExplore bool
 	mapOrderExplore bool
 	curPos    token.Pos
+	curFn     *ssa.Function
 	fset      *token.FileSet
 	inInit      bool
 	isConcrete  bool
 	globalCells map[*value]string
 	locks       map[*value]bool
+	rlocks      map[*value]int
 	uniq        map[int32]uniqRes
 }
 
